@@ -61,6 +61,7 @@ type TxInfo struct {
 	Pos        int
 	HasPos     bool
 	Vote       bool
+	SimpleVote bool // by the reference definition (see buildTx)
 	Failed     bool
 	Fee        uint64
 	Static     []solana.PublicKey
@@ -364,16 +365,27 @@ func (b *builder) buildTx(ts *TxSpec, slot uint64, pos int, blkIdx int, blocktim
 	} else {
 		keys = append(keys, solana.SystemProgramID)
 		ninst := 1 + r.intn(2)
-		if ninst == 2 {
+		if ts.NInst > 0 {
+			ninst = ts.NInst
+		}
+		if ninst >= 2 {
 			keys = append(keys, solana.MemoProgramID)
 			nprog = 2
+		}
+		if ts.VoteAt > 0 {
+			keys = append(keys, solana.VoteProgramID)
+			nprog++
 		}
 		for i := 0; i < ninst; i++ {
 			var accs []uint16
 			for j := 0; j < len(keys)-nprog && j < 1+r.intn(3); j++ {
 				accs = append(accs, uint16(j))
 			}
-			msg.Instructions = append(msg.Instructions, solana.CompiledInstruction{ProgramIDIndex: uint16(len(keys) - nprog + i), Accounts: accs, Data: r.bytes(r.intn(48))})
+			prog := len(keys) - nprog + i%2 // System, Memo, System, ...
+			if ts.VoteAt > 0 && i == ts.VoteAt-1 {
+				prog = len(keys) - 1
+			}
+			msg.Instructions = append(msg.Instructions, solana.CompiledInstruction{ProgramIDIndex: uint16(prog), Accounts: accs, Data: r.bytes(r.intn(48))})
 		}
 	}
 	msg.AccountKeys = keys
@@ -395,6 +407,8 @@ func (b *builder) buildTx(ts *TxSpec, slot uint64, pos int, blkIdx int, blocktim
 		}
 	}
 	ti.Static = keys
+	// reference definition of a simple vote transaction: 1-2 signatures, legacy message, exactly one instruction, which invokes the Vote program
+	ti.SimpleVote = nsig < 3 && !(ts.V0 && !ts.Vote) && len(msg.Instructions) == 1 && keys[msg.Instructions[0].ProgramIDIndex] == solana.VoteProgramID
 	raw, err := tx.MarshalBinary()
 	if err != nil {
 		panic(fmt.Errorf("cargen: tx marshal: %w", err))
